@@ -308,5 +308,463 @@ theorem newMapXmlSeq_tree (c : SeqCfg) (S : Strconv) (fin : StreamEnd) (pre post
   rw [e, List.append_assoc, seqTop_skip c S fin pre hpre,
     seqTop_tree c S fin sp name attrs kids post _ (by rw [length_flatten_elem]; omega)]
 
+/-! ### (3a) association lists: prefixes, `addAll`, `unrollEntries` -/
+
+theorem keys_nil : keys ([] : Entries) = [] := rfl
+theorem keys_cons' (e : Str × Val) (l : Entries) : keys (e :: l) = e.1 :: keys l := rfl
+theorem keys_append' (a b : Entries) : keys (a ++ b) = keys a ++ keys b := by
+  simp [keys]
+
+theorem insert_append_left (k : Str) (v : Val) : ∀ (P G : Entries), k ∉ keys P →
+    insert k v (P ++ G) = P ++ insert k v G
+  | [], G, _ => rfl
+  | (k', v') :: P, G, h => by
+      have h' : k ≠ k' ∧ k ∉ keys P := by simpa [keys] using h
+      simp only [List.cons_append, insert, h'.1, if_false]
+      rw [insert_append_left k v P G h'.2]
+
+theorem insert_append_right (k : Str) (v : Val) : ∀ (P G : Entries), k ∈ keys P →
+    insert k v (P ++ G) = insert k v P ++ G
+  | [], G, h => by simp [keys] at h
+  | (k', v') :: P, G, h => by
+      by_cases e : k = k'
+      · simp only [List.cons_append, insert, e, if_true]
+      · have h' : k ∈ keys P := by
+          rw [keys_cons', List.mem_cons] at h
+          rcases h with h | h
+          · exact absurd h e
+          · exact h
+        simp only [List.cons_append, insert, e, if_false]
+        rw [insert_append_right k v P G h']
+
+theorem insert_absent (k : Str) (v : Val) : ∀ (P : Entries), k ∉ keys P →
+    insert k v P = P ++ [(k, v)] := by
+  intro P h
+  have := insert_append_left k v P [] h
+  simpa [insert] using this
+
+theorem lookup_append_left (k : Str) : ∀ (P G : Entries), k ∉ keys P →
+    lookup k (P ++ G) = lookup k G
+  | [], G, _ => rfl
+  | (k', v') :: P, G, h => by
+      have h' : k ≠ k' ∧ k ∉ keys P := by simpa [keys] using h
+      simp only [List.cons_append, lookup, h'.1, if_false]
+      exact lookup_append_left k P G h'.2
+
+theorem lookup_append_some (k : Str) (v : Val) : ∀ (P G : Entries), lookup k P = some v →
+    lookup k (P ++ G) = some v
+  | [], G, h => by simp [lookup] at h
+  | (k', v') :: P, G, h => by
+      by_cases e : k = k'
+      · simpa only [List.cons_append, lookup, e, if_true] using h
+      · simp only [List.cons_append, lookup, e, if_false] at h ⊢
+        exact lookup_append_some k v P G h
+
+theorem not_mem_keys_of_lookup {k : Str} {l : Entries} (h : lookup k l = none) : k ∉ keys l :=
+  (Dec.lookup_eq_none_iff k l).1 h
+
+theorem lookup_none_of_not_mem {k : Str} {l : Entries} (h : k ∉ keys l) : lookup k l = none :=
+  (Dec.lookup_eq_none_iff k l).2 h
+
+theorem addChild_append_left (k : Str) (v : Val) (P G : Entries) (h : k ∉ keys P) :
+    addChild (P ++ G) k v = P ++ addChild G k v := by
+  rw [addChild_eq, addChild_eq, lookup_append_left k P G h, insert_append_left k _ P G h]
+
+theorem addAll_append_left (P : Entries) : ∀ (cs : List (Str × Val)) (G : Entries),
+    (∀ e ∈ cs, e.1 ∉ keys P) → addAll (P ++ G) cs = P ++ addAll G cs
+  | [], G, _ => rfl
+  | e :: cs, G, h => by
+      rw [addAll_cons, addAll_cons, addChild_append_left _ _ _ _ (h e (List.mem_cons_self ..))]
+      exact addAll_append_left P cs _ (fun e' he' => h e' (List.mem_cons_of_mem _ he'))
+
+theorem addAll_isEmpty : ∀ (cs : List (Str × Val)) (G : Entries),
+    (addAll G cs).isEmpty = (G.isEmpty && cs.isEmpty)
+  | [], G => by simp [addAll_nil]
+  | e :: cs, G => by
+      rw [addAll_cons, addAll_isEmpty cs, addChild_ne_nil]
+      simp
+
+theorem lookup_addAll_none (k : Str) (cs : List (Str × Val)) (G : Entries)
+    (h1 : lookup k G = none) (h2 : ∀ e ∈ cs, e.1 ≠ k) : lookup k (addAll G cs) = none := by
+  rw [lookup_addAll, h1]
+  have : valsOf k cs = [] := by
+    apply valsOf_eq_nil
+    intro hm
+    obtain ⟨e, he, hk⟩ := List.mem_map.1 hm
+    exact h2 e he hk
+  rw [this]; rfl
+
+/-- the keys `unrollEntries` skips -/
+def dropK (c : SeqCfg) (k : Str) : Bool := k = c.attrK || k = c.seqK || k = c.textK
+
+/-- what one entry unrolls to -/
+def unroll1 (k : Str) (v : Val) : List (Str × Val) :=
+  match v with
+  | .list xs => xs.map (fun x => (k, x))
+  | v => [(k, v)]
+
+theorem unrollEntries_cons (c : SeqCfg) (k : Str) (v : Val) (rest : Entries) :
+    unrollEntries c ((k, v) :: rest)
+      = (if dropK c k then [] else unroll1 k v) ++ unrollEntries c rest := by
+  unfold dropK
+  by_cases h : (k = c.attrK || k = c.seqK || k = c.textK) = true
+  · cases v <;> simp only [unrollEntries, h, if_true, List.nil_append]
+  · cases v <;> simp only [unrollEntries, h, if_false, Bool.false_eq_true, unroll1, List.cons_append,
+      List.nil_append]
+
+theorem unrollEntries_append (c : SeqCfg) : ∀ (X Y : Entries),
+    unrollEntries c (X ++ Y) = unrollEntries c X ++ unrollEntries c Y
+  | [], Y => by simp [unrollEntries]
+  | (k, v) :: X, Y => by
+      rw [List.cons_append, unrollEntries_cons, unrollEntries_cons, unrollEntries_append c X Y,
+        List.append_assoc]
+
+theorem unrollEntries_dropped (c : SeqCfg) : ∀ (X : Entries), (∀ k ∈ keys X, dropK c k = true) →
+    unrollEntries c X = []
+  | [], _ => by simp [unrollEntries]
+  | (k, v) :: X, h => by
+      rw [unrollEntries_cons, h k (by simp [keys]), if_pos rfl,
+        unrollEntries_dropped c X (fun k' hk' => h k' (by simp [keys] at hk' ⊢; exact .inr hk'))]
+      rfl
+
+theorem unroll1_promote (k : Str) (old v : Val) :
+    unroll1 k (promote (some old) v) = unroll1 k old ++ [(k, v)] := by
+  cases old <;> simp [promote, unroll1]
+
+theorem unroll1_nonlist (k : Str) (v : Val) (hv : v.isList = false) : unroll1 k v = [(k, v)] := by
+  cases v <;> simp [unroll1, Val.isList] at hv ⊢
+
+theorem unrollEntries_addChild (c : SeqCfg) (k : Str) (v : Val) (hk : dropK c k = false)
+    (hv : v.isList = false) : ∀ (na : Entries),
+    (unrollEntries c (addChild na k v)).Perm (unrollEntries c na ++ [(k, v)])
+  | [] => by
+      simp only [addChild, lookup, insert, unrollEntries_cons, hk, unroll1_nonlist k v hv]
+      simp [unrollEntries]
+  | (k', v') :: rest => by
+      rw [addChild_eq]
+      by_cases e : k = k'
+      · subst e
+        simp only [lookup, insert, if_true, unrollEntries_cons, hk, Bool.false_eq_true, if_false,
+          unroll1_promote k v' v, List.append_assoc]
+        exact List.Perm.append_left _ List.perm_append_comm
+      · have ih := unrollEntries_addChild c k v hk hv rest
+        rw [addChild_eq] at ih
+        simp only [lookup, insert, e, if_false, unrollEntries_cons, List.append_assoc]
+        exact List.Perm.append_left _ ih
+
+theorem unrollEntries_addAll (c : SeqCfg) : ∀ (cs : List (Str × Val)) (na : Entries),
+    (∀ e ∈ cs, dropK c e.1 = false ∧ e.2.isList = false) →
+    (unrollEntries c (addAll na cs)).Perm (unrollEntries c na ++ cs)
+  | [], na, _ => by simp [addAll_nil]
+  | e :: cs, na, h => by
+      rw [addAll_cons]
+      have h1 := h e (List.mem_cons_self ..)
+      refine (unrollEntries_addAll c cs _ (fun e' he' => h e' (List.mem_cons_of_mem _ he'))).trans ?_
+      have := (unrollEntries_addChild c e.1 e.2 h1.1 h1.2 na).append_right cs
+      simpa [List.append_assoc] using this
+
+/-! ### (3b) configurations; the decorated children of an element -/
+
+/-- what the round trip needs of a configuration: no decoder-side escaping, no cast, and the
+    reserved keys pairwise distinct (the default configuration qualifies: `cfgOk_dflt`) -/
+structure CfgOk (c : SeqCfg) : Prop where
+  escDec : c.escDec = false
+  castOff : c.cast.r = false
+  ts : c.textK ≠ c.seqK
+  ta : c.textK ≠ c.attrK
+  tc : c.textK ≠ c.commentK
+  td : c.textK ≠ c.directiveK
+  tp : c.textK ≠ c.procinstK
+  sa : c.seqK ≠ c.attrK
+  sc : c.seqK ≠ c.commentK
+  sd : c.seqK ≠ c.directiveK
+  sp : c.seqK ≠ c.procinstK
+  ac : c.attrK ≠ c.commentK
+  ad : c.attrK ≠ c.directiveK
+  ap : c.attrK ≠ c.procinstK
+  cd : c.commentK ≠ c.directiveK
+  cp : c.commentK ≠ c.procinstK
+  dp : c.directiveK ≠ c.procinstK
+  ti : c.targetK ≠ c.instK
+  st : c.seqK ≠ c.targetK
+  si : c.seqK ≠ c.instK
+
+theorem cfgOk_dflt : CfgOk seqDflt := by
+  constructor <;> decide
+
+theorem cast_off (S : Strconv) (cc : CastCfg) (h : cc.r = false) (s t : Str) :
+    cast S cc s t = .str s := by
+  unfold cast
+  split
+  · rfl
+  · simp [h]
+
+theorem escDecIf_off (c : SeqCfg) (h : c.escDec = false) (s : Str) : escDecIf c.dec s = s := by
+  simp [escDecIf, SeqCfg.dec, h]
+
+theorem seqOf_of_lookup (c : SeqCfg) (kvs : Entries) (n : Nat)
+    (h : lookup c.seqK kvs = some (seqNum n)) : seqOf c (.map kvs) = n := by
+  have e : seqNum n = .num ('i' :: ':' :: natToStr n) := rfl
+  rw [e] at h
+  simp only [seqOf, h, natToStr_all, Bool.true_and]
+  have : (natToStr n).isEmpty = false := by
+    cases hn : natToStr n with
+    | nil => exact absurd hn (natToStr_ne_nil n)
+    | cons _ _ => rfl
+  simp [this, digitsVal_natToStr]
+
+theorem seqChild_form (c : SeqCfg) (hts : c.textK ≠ c.seqK) (seq : Nat) (v : Val) :
+    ∃ kvs, seqChild c seq v = .map kvs ∧ lookup c.seqK kvs = some (seqNum seq) := by
+  have hst : ¬ c.seqK = c.textK := fun e => hts e.symm
+  cases v with
+  | map kvs => exact ⟨_, rfl, by rw [lookup_insert]; simp⟩
+  | null => exact ⟨_, rfl, by simp [lookup, hst]⟩
+  | bool _ => exact ⟨_, rfl, by simp [lookup, hst]⟩
+  | num _ => exact ⟨_, rfl, by simp [lookup, hst]⟩
+  | str _ => exact ⟨_, rfl, by simp [lookup, hst]⟩
+  | list _ => exact ⟨_, rfl, by simp [lookup, hst]⟩
+
+theorem seqOf_seqChild (c : SeqCfg) (hts : c.textK ≠ c.seqK) (seq : Nat) (v : Val) :
+    seqOf c (seqChild c seq v) = seq := by
+  obtain ⟨kvs, e, h⟩ := seqChild_form c hts seq v
+  rw [e]; exact seqOf_of_lookup c kvs seq h
+
+theorem seqChild_not_list (c : SeqCfg) (seq : Nat) (v : Val) : (seqChild c seq v).isList = false := by
+  cases v <;> rfl
+
+/-- the value stored for a comment / directive -/
+def noteVal (c : SeqCfg) (s : Str) (seq : Nat) : Val := .map [(c.textK, .str s), (c.seqK, seqNum seq)]
+/-- the value stored for a processing instruction -/
+def piVal (c : SeqCfg) (t i : Str) (seq : Nat) : Val :=
+  .map [(c.targetK, .str t), (c.instK, .str i), (c.seqK, seqNum seq)]
+
+theorem seqOf_noteVal (c : SeqCfg) (hts : c.textK ≠ c.seqK) (s : Str) (seq : Nat) :
+    seqOf c (noteVal c s seq) = seq := by
+  have hst : ¬ c.seqK = c.textK := fun e => hts e.symm
+  exact seqOf_of_lookup c _ seq (by simp [lookup, hst])
+
+theorem seqOf_piVal (c : SeqCfg) (h1 : c.seqK ≠ c.targetK) (h2 : c.seqK ≠ c.instK) (t i : Str)
+    (seq : Nat) : seqOf c (piVal c t i seq) = seq :=
+  seqOf_of_lookup c _ seq (by simp [lookup, h1, h2])
+
+/-- the entries the non-text children of an element contribute, in document order, numbered
+    consecutively from `seq` -/
+def items (c : SeqCfg) (S : Strconv) : Nat → List Node → List (Str × Val)
+  | _, [] => []
+  | seq, .elem sp name attrs ks :: rest =>
+      (qualName c sp name, seqChild c seq (SeqFold.value c S (.elem sp name attrs ks)))
+        :: items c S (seq + 1) rest
+  | seq, .text _ :: rest => items c S seq rest
+  | seq, .comment s :: rest => (c.commentK, noteVal c s seq) :: items c S (seq + 1) rest
+  | seq, .directive s :: rest => (c.directiveK, noteVal c s seq) :: items c S (seq + 1) rest
+  | seq, .procinst t i :: rest => (c.procinstK, piVal c t i seq) :: items c S (seq + 1) rest
+
+/-- numbering: the k-th non-text child carries `#seq` = `seq + k` -/
+theorem items_seqs (c : SeqCfg) (S : Strconv) (hc : CfgOk c) : ∀ (kids : List Node) (seq : Nat),
+    (items c S seq kids).map (fun e => seqOf c e.2) = List.range' seq (items c S seq kids).length
+  | [], seq => by simp [items]
+  | .elem sp name attrs ks :: rest, seq => by
+      simp only [items, List.map_cons, List.length_cons, List.range'_succ, seqOf_seqChild c hc.ts,
+        items_seqs c S hc rest (seq + 1)]
+  | .text _ :: rest, seq => by simp only [items]; exact items_seqs c S hc rest seq
+  | .comment s :: rest, seq => by
+      simp only [items, List.map_cons, List.length_cons, List.range'_succ, seqOf_noteVal c hc.ts,
+        items_seqs c S hc rest (seq + 1)]
+  | .directive s :: rest, seq => by
+      simp only [items, List.map_cons, List.length_cons, List.range'_succ, seqOf_noteVal c hc.ts,
+        items_seqs c S hc rest (seq + 1)]
+  | .procinst t i :: rest, seq => by
+      simp only [items, List.map_cons, List.length_cons, List.range'_succ,
+        seqOf_piVal c hc.st hc.si, items_seqs c S hc rest (seq + 1)]
+
+theorem items_pairwise (c : SeqCfg) (S : Strconv) (hc : CfgOk c) (kids : List Node) (seq : Nat) :
+    (items c S seq kids).Pairwise (fun a b => seqOf c a.2 < seqOf c b.2) := by
+  have h : ((items c S seq kids).map (fun e => seqOf c e.2)).Pairwise (· < ·) := by
+    rw [items_seqs c S hc]; exact List.pairwise_lt_range'
+  exact List.pairwise_map.1 h
+
+theorem items_not_list (c : SeqCfg) (S : Strconv) : ∀ (kids : List Node) (seq : Nat),
+    ∀ e ∈ items c S seq kids, e.2.isList = false
+  | [], seq, e, h => by simp [items] at h
+  | .elem sp name attrs ks :: rest, seq, e, h => by
+      simp only [items, List.mem_cons] at h
+      rcases h with rfl | h
+      · exact seqChild_not_list ..
+      · exact items_not_list c S rest _ e h
+  | .text _ :: rest, seq, e, h => by
+      simp only [items] at h; exact items_not_list c S rest _ e h
+  | .comment _ :: rest, seq, e, h => by
+      simp only [items, List.mem_cons] at h
+      rcases h with rfl | h
+      · rfl
+      · exact items_not_list c S rest _ e h
+  | .directive _ :: rest, seq, e, h => by
+      simp only [items, List.mem_cons] at h
+      rcases h with rfl | h
+      · rfl
+      · exact items_not_list c S rest _ e h
+  | .procinst _ _ :: rest, seq, e, h => by
+      simp only [items, List.mem_cons] at h
+      rcases h with rfl | h
+      · rfl
+      · exact items_not_list c S rest _ e h
+
+/-- the element's own key is not reserved -/
+theorem seqDomain_key {c : SeqCfg} {sp name : Str} {attrs : List Attr} {kids : List Node}
+    (h : seqDomain c (.elem sp name attrs kids) = true) :
+    qualName c sp name ∉ hashKeys c := by
+  simp only [seqDomain, Bool.and_eq_true, Bool.not_eq_true', List.contains_eq_mem,
+    decide_eq_false_iff_not] at h
+  exact h.1.1.1.1.1.1.1
+
+theorem not_hash {c : SeqCfg} {k : Str} (h : k ∉ hashKeys c) :
+    k ≠ c.textK ∧ k ≠ c.seqK ∧ k ≠ c.attrK ∧ k ≠ c.commentK ∧ k ≠ c.directiveK ∧ k ≠ c.procinstK := by
+  simpa [hashKeys] using h
+
+/-- no child entry sits under the text, sequence or attribute key -/
+theorem items_keys (c : SeqCfg) (S : Strconv) (hc : CfgOk c) : ∀ (kids : List Node) (seq : Nat),
+    seqDomainKids c kids = true →
+    ∀ e ∈ items c S seq kids, e.1 ≠ c.textK ∧ e.1 ≠ c.seqK ∧ e.1 ≠ c.attrK
+  | [], seq, _, e, h => by simp [items] at h
+  | .elem sp name attrs ks :: rest, seq, hd, e, h => by
+      simp only [seqDomainKids, Bool.and_eq_true] at hd
+      simp only [items, List.mem_cons] at h
+      rcases h with rfl | h
+      · have := not_hash (seqDomain_key hd.1)
+        exact ⟨this.1, this.2.1, this.2.2.1⟩
+      · exact items_keys c S hc rest _ hd.2 e h
+  | .text _ :: rest, seq, hd, e, h => by
+      simp only [seqDomainKids] at hd
+      simp only [items] at h; exact items_keys c S hc rest _ hd e h
+  | .comment _ :: rest, seq, hd, e, h => by
+      simp only [seqDomainKids] at hd
+      simp only [items, List.mem_cons] at h
+      rcases h with rfl | h
+      · exact ⟨hc.tc.symm, hc.sc.symm, hc.ac.symm⟩
+      · exact items_keys c S hc rest _ hd e h
+  | .directive _ :: rest, seq, hd, e, h => by
+      simp only [seqDomainKids] at hd
+      simp only [items, List.mem_cons] at h
+      rcases h with rfl | h
+      · exact ⟨hc.td.symm, hc.sd.symm, hc.ad.symm⟩
+      · exact items_keys c S hc rest _ hd e h
+  | .procinst _ _ :: rest, seq, hd, e, h => by
+      simp only [seqDomainKids] at hd
+      simp only [items, List.mem_cons] at h
+      rcases h with rfl | h
+      · exact ⟨hc.tp.symm, hc.sp.symm, hc.ap.symm⟩
+      · exact items_keys c S hc rest _ hd e h
+
+/-! ### (3c) the fold over children without (non-blank) text is `addAll` of the items -/
+
+def startsText : List Node → Bool
+  | .text _ :: _ => true
+  | _ => false
+
+theorem onText_blank (c : SeqCfg) (S : Strconv) (hc : CfgOk c) (na : Entries) (seq : Nat) (s : Str)
+    (hb : isBlankText c s = true) :
+    SeqFold.onText c S na seq none s = (na, seq, some (s, false)) := by
+  have : (escDecIf c.dec (trimChars (trimSet c.dec) ([] ++ s))).isEmpty = true := by
+    rw [escDecIf_off c hc.escDec]; exact hb
+  simp only [SeqFold.onText, this, if_true, List.nil_append]
+
+theorem onText_first (c : SeqCfg) (S : Strconv) (hc : CfgOk c) (na : Entries) (seq : Nat) (s : Str)
+    (hb : isBlankText c s = false) :
+    SeqFold.onText c S na seq none s
+      = (insert c.seqK (seqNum seq) (insert c.textK (.str (seqTrim c s)) na), seq + 1,
+          some (s, true)) := by
+  have : (escDecIf c.dec (trimChars (trimSet c.dec) ([] ++ s))).isEmpty = false := by
+    rw [escDecIf_off c hc.escDec]; exact hb
+  simp only [SeqFold.onText, this, Bool.false_eq_true, if_false, List.nil_append,
+    cast_off S c.cast hc.castOff, escDecIf_off c hc.escDec, seqTrim]
+
+theorem addChild_of_none (na : Entries) (k : Str) (v : Val) (h : lookup k na = none) :
+    addChild na k v = insert k v na := by
+  simp [addChild, h]
+
+theorem noAdjTop_text {s : Str} {rest : List Node} (h : noAdjTop (.text s :: rest) = true) :
+    startsText rest = false ∧ noAdjTop rest = true := by
+  cases rest with
+  | nil => simp [startsText, noAdjTop]
+  | cons k r => cases k <;> simp_all [startsText, noAdjTop]
+
+theorem noAdjTop_tail {k : Node} {rest : List Node} (h : noAdjTop (k :: rest) = true) :
+    noAdjTop rest = true := by
+  cases k with
+  | text s => exact (noAdjTop_text h).2
+  | elem _ _ _ _ => simpa [noAdjTop] using h
+  | comment _ => simpa [noAdjTop] using h
+  | directive _ => simpa [noAdjTop] using h
+  | procinst _ _ => simpa [noAdjTop] using h
+
+theorem kids'_items (c : SeqCfg) (S : Strconv) (hc : CfgOk c) : ∀ (kids : List Node) (na : Entries)
+    (seq : Nat) (pend : Option (Str × Bool)),
+    noText c kids = true → noAdjTop kids = true → (pend = none ∨ startsText kids = false) →
+    seqDomainKids c kids = true →
+    nComments kids ≤ 1 → (0 < nComments kids → lookup c.commentK na = none) →
+    nDirectives kids ≤ 1 → (0 < nDirectives kids → lookup c.directiveK na = none) →
+    nProcinsts kids ≤ 1 → (0 < nProcinsts kids → lookup c.procinstK na = none) →
+    (SeqFold.kids' c S (na, seq, pend) kids).1 = addAll na (items c S seq kids)
+  | [], na, seq, pend, _, _, _, _, _, _, _, _, _, _ => by simp [SeqFold.kids', items, addAll_nil]
+  | .text s :: rest, na, seq, pend, ht, ha, hp, hd, c1, c2, d1, d2, p1, p2 => by
+      simp only [noText, Bool.and_eq_true] at ht
+      have hpn : pend = none := by
+        rcases hp with h | h
+        · exact h
+        · simp [startsText] at h
+      subst hpn
+      have hr := noAdjTop_text ha
+      simp only [SeqFold.kids', items, onText_blank c S hc na seq s ht.1]
+      exact kids'_items c S hc rest na seq _ ht.2 hr.2 (.inr hr.1) (by simpa [seqDomainKids] using hd)
+        (by simpa [nComments] using c1) (by simpa [nComments] using c2)
+        (by simpa [nDirectives] using d1) (by simpa [nDirectives] using d2)
+        (by simpa [nProcinsts] using p1) (by simpa [nProcinsts] using p2)
+  | .elem sp name attrs ks :: rest, na, seq, pend, ht, ha, hp, hd, c1, c2, d1, d2, p1, p2 => by
+      simp only [seqDomainKids, Bool.and_eq_true] at hd
+      have hk := not_hash (seqDomain_key hd.1)
+      simp only [SeqFold.kids', items, addAll_cons]
+      refine kids'_items c S hc rest _ (seq + 1) none (by simpa [noText] using ht) (noAdjTop_tail ha)
+        (.inl rfl) hd.2 (by simpa [nComments] using c1) ?_ (by simpa [nDirectives] using d1) ?_
+        (by simpa [nProcinsts] using p1) ?_
+      · intro h; rw [lookup_addChild, if_neg (fun e => hk.2.2.2.1 e.symm)]
+        exact c2 (by simpa [nComments] using h)
+      · intro h; rw [lookup_addChild, if_neg (fun e => hk.2.2.2.2.1 e.symm)]
+        exact d2 (by simpa [nDirectives] using h)
+      · intro h; rw [lookup_addChild, if_neg (fun e => hk.2.2.2.2.2 e.symm)]
+        exact p2 (by simpa [nProcinsts] using h)
+  | .comment t :: rest, na, seq, pend, ht, ha, hp, hd, c1, c2, d1, d2, p1, p2 => by
+      simp only [nComments] at c1 c2
+      have c0 : nComments rest = 0 := by omega
+      simp only [SeqFold.kids', items, addAll_cons, addChild_of_none na _ _ (c2 (by omega)), noteVal]
+      refine kids'_items c S hc rest _ (seq + 1) none (by simpa [noText] using ht) (noAdjTop_tail ha)
+        (.inl rfl) (by simpa [seqDomainKids] using hd) (by omega) (by omega)
+        (by simpa [nDirectives] using d1) ?_ (by simpa [nProcinsts] using p1) ?_
+      · intro h; rw [lookup_insert, if_neg hc.cd.symm]
+        exact d2 (by simpa [nDirectives] using h)
+      · intro h; rw [lookup_insert, if_neg hc.cp.symm]
+        exact p2 (by simpa [nProcinsts] using h)
+  | .directive t :: rest, na, seq, pend, ht, ha, hp, hd, c1, c2, d1, d2, p1, p2 => by
+      simp only [nDirectives] at d1 d2
+      have d0 : nDirectives rest = 0 := by omega
+      simp only [SeqFold.kids', items, addAll_cons, addChild_of_none na _ _ (d2 (by omega)), noteVal]
+      refine kids'_items c S hc rest _ (seq + 1) none (by simpa [noText] using ht) (noAdjTop_tail ha)
+        (.inl rfl) (by simpa [seqDomainKids] using hd) (by simpa [nComments] using c1) ?_
+        (by omega) (by omega) (by simpa [nProcinsts] using p1) ?_
+      · intro h; rw [lookup_insert, if_neg hc.cd]
+        exact c2 (by simpa [nComments] using h)
+      · intro h; rw [lookup_insert, if_neg hc.dp.symm]
+        exact p2 (by simpa [nProcinsts] using h)
+  | .procinst t i :: rest, na, seq, pend, ht, ha, hp, hd, c1, c2, d1, d2, p1, p2 => by
+      simp only [nProcinsts] at p1 p2
+      have p0 : nProcinsts rest = 0 := by omega
+      simp only [SeqFold.kids', items, addAll_cons, addChild_of_none na _ _ (p2 (by omega)), piVal]
+      refine kids'_items c S hc rest _ (seq + 1) none (by simpa [noText] using ht) (noAdjTop_tail ha)
+        (.inl rfl) (by simpa [seqDomainKids] using hd) (by simpa [nComments] using c1) ?_
+        (by simpa [nDirectives] using d1) ?_ (by omega) (by omega)
+      · intro h; rw [lookup_insert, if_neg hc.cp]
+        exact c2 (by simpa [nComments] using h)
+      · intro h; rw [lookup_insert, if_neg hc.dp]
+        exact d2 (by simpa [nDirectives] using h)
+
 end SeqL
 end Mxj
